@@ -383,6 +383,8 @@ def run_c04(tier: str) -> int:
                                    "symbolic encoder state must give the layout that starts at bit 0"]
     for r in pmap(c04_case, cases):
         rep.merge(r)
+        if rep.red_enough():
+            break
     v = rep.vacuity
     if v.get("twin_reached", 0) != v.get("twin_expected", 0):
         rep.inconclusive.append(f"reachability twin failed: {v}")
